@@ -36,8 +36,19 @@ var c17Watchdog = func() time.Duration {
 	if v, err := time.ParseDuration(os.Getenv("C17_WATCHDOG")); err == nil && v > 0 {
 		return v
 	}
-	return 120 * time.Second
+	return 60 * time.Second
 }()
+
+// after the first stall the run is inconclusive anyway; later cases only collect further evidence
+// and use a short watchdog so that the summary is still written in time
+var c17Stalls int32
+
+func c17WD() time.Duration {
+	if atomic.LoadInt32(&c17Stalls) > 0 {
+		return 5 * time.Second
+	}
+	return c17Watchdog
+}
 
 type c17Step struct {
 	Cap  int    `json:"cap"`
@@ -249,8 +260,9 @@ func (m *c17Mon) waitUntil(what string, cond func() bool) bool {
 		}
 		if e := atomic.LoadInt64(&m.events); e != last {
 			last, lastT = e, time.Now()
-		} else if time.Since(lastT) > c17Watchdog {
-			m.doAbort("watchdog: no progress for " + c17Watchdog.String() + " while waiting for " + what)
+		} else if wd := c17WD(); time.Since(lastT) > wd {
+			atomic.AddInt32(&c17Stalls, 1)
+			m.doAbort("watchdog: no progress for " + wd.String() + " while waiting for " + what)
 			return false
 		}
 	}
@@ -580,8 +592,9 @@ func c17RunScript(r *kit.Run, s *c17Script, seed int64) {
 	})
 	if ok {
 		r.Count("scripts_completed", 1)
-		c17Audit(r, m, ll, s)
-		c17Probe(r, m, in, s)
+		if c17Audit(r, m, ll, s) {
+			c17Probe(r, m, in, s)
+		}
 	}
 	m.mu.Lock()
 	mg := m.maxGauge
@@ -606,7 +619,7 @@ func c17RunScript(r *kit.Run, s *c17Script, seed int64) {
 // parked inside the inner Accept holding exactly one slot) the free capacity must be exactly
 // cap-1.  The probe is AcquireWithContext with an already cancelled context, which never
 // blocks: it succeeds iff a slot is free.
-func c17Audit(r *kit.Run, m *c17Mon, ll *LimitListener, s *c17Script) {
+func c17Audit(r *kit.Run, m *c17Mon, ll *LimitListener, s *c17Script) bool {
 	cctx, cancel := context.WithCancel(context.Background())
 	cancel()
 	probe := func() int {
@@ -627,7 +640,7 @@ func c17Audit(r *kit.Run, m *c17Mon, ll *LimitListener, s *c17Script) {
 		// the Release of a grow issued through SetMaxConnection has no completion signal;
 		// it may legitimately still be on its way
 		if !m.waitUntil("asynchronous grow of SetMaxConnection to land", func() bool { got = probe(); return got >= want }) {
-			return
+			return false
 		}
 	}
 	r.Count("capacity_audits", 1)
@@ -645,7 +658,9 @@ func c17Audit(r *kit.Run, m *c17Mon, ll *LimitListener, s *c17Script) {
 		r.Violation("limitlistener:capacity-drift:"+dir+":"+over, map[string]interface{}{
 			"free_slots_found": got, "free_slots_expected": want, "final_cap": want + 1, "script": s, "history": m.history,
 		})
+		return false
 	}
+	return true
 }
 
 // c17Probe: cap+2 clients against the final cap: exactly cap are let in (the accept check
